@@ -19,6 +19,8 @@ def classify(env, src, dst):
     for u in (src, dst):
         for f, e in u.factors.items():
             ex = env.mdl.declared_dimension(f).exponents
+            if f is not env.m.One and not any(ex) and len(u.factors) > 1 or (not any(ex) and f is not env.m.One and e != 1):
+                return "DIMLESS"
             if sum(abs(x) for x in ex) > 1 and len(f.factors) == 1:
                 derived = True
                 if e < 0:
@@ -62,6 +64,12 @@ class ConvertMonitor:
         r = orc.ratio(src, other_unit)
         if r is None:
             ctx.count("convert/oracle_has_no_route")
+            dd = self.env.mdl.declared_dimension
+            if orc.knows(src) and orc.knows(other_unit) and orc.ratio(orc.without_dimensionless(src, dd), orc.without_dimensionless(other_unit, dd)) is not None:
+                ctx.violation(f"{self.key_prefix}:dimensionless-factor-dropped-or-inverted",
+                              f"{quantity.magnitude!r} {src} -> {other_unit} returned {result.magnitude!r}: dimensionless factors with no declared route were dropped",
+                              {"src": repr(quantity), "dst": repr(other_unit), "got": repr(result.magnitude)})
+                return
             # the library converted between units the declarations do not connect
             ctx.violation(f"{self.key_prefix}:converted-without-declared-route",
                           f"{quantity!r} -> {other_unit!r} returned {result.magnitude!r} but no chain of declarations links them",
@@ -99,7 +107,7 @@ class ConvertMonitor:
             except Exception as e:  # pragma: no cover
                 plan_s = f"<{type(e).__name__}>"
             ctx.violation(
-                f"{self.key_prefix}:wrong-magnitude:{cls}",
+                f"{self.key_prefix}:dimensionless-factor-dropped-or-inverted" if cls == "DIMLESS" else f"{self.key_prefix}:wrong-magnitude:{cls}",
                 f"{m!r} {src} -> {other_unit}: got {got!r}, oracle [{float(elo)!r}, {float(ehi)!r}] (rel tol {float(rel):g})",
                 {"src_mag": repr(m), "src": repr(src), "dst": repr(other_unit), "got": repr(got),
                  "oracle_lo": float(elo), "oracle_hi": float(ehi), "plan": plan_s},
